@@ -32,7 +32,10 @@ def load_units():
     if VERIF not in sys.path:
         sys.path.insert(0, VERIF)
     d = os.path.join(VERIF, 'units')
-    for fn in sorted(os.listdir(d)):
+    files = [(d, fn) for fn in sorted(os.listdir(d))]
+    if os.environ.get('XV_EXTRA_UNITS'):      # development only: units not yet moved into units/ (never set by a registered command)
+        files += [(os.environ['XV_EXTRA_UNITS'], fn) for fn in sorted(os.listdir(os.environ['XV_EXTRA_UNITS']))]
+    for d, fn in files:
         if not fn.endswith('.py') or fn.startswith('_'):
             continue
         spec = importlib.util.spec_from_file_location('xv_unit_' + fn[:-3], os.path.join(d, fn))
